@@ -567,6 +567,17 @@ class Component(CaselessDict):
 
         properties_equal = super().__eq__(other)
         if not properties_equal:
+            # a property with a single value is the same property whether the
+            # value is held in a list or not: both are written as one line
+            def single(value):
+                if isinstance(value, list) and len(value) == 1:
+                    return value[0]
+                return value
+            properties_equal = self.keys() == other.keys() and all(
+                single(value) == single(other[key])
+                for key, value in self.items()
+            )
+        if not properties_equal:
             return False
 
         # The subcomponents might not be in the same order,
